@@ -552,6 +552,14 @@ def _grammar_reaches_caller_intact(run: Run) -> None:
         for a in walk_no_nested(fi.node):
             if isinstance(a, ast.Assign) and isinstance(a.value, ast.Call) and (ast.unparse(a.value.func).endswith("compile_schema") or ast.unparse(a.value.func).endswith("compile_gbnf_from_meta")) and isinstance(a.targets[0], ast.Name):
                 gvars[a.targets[0].id] = a
+        # the call's value stored or returned on the spot (`env["output"] = compile_...(..)`, `return compile_...(..)`, a dict entry)
+        for c in walk_no_nested(fi.node):
+            if isinstance(c, ast.Call) and (ast.unparse(c.func).endswith("compile_schema") or ast.unparse(c.func).endswith("compile_gbnf_from_meta")):
+                par = getattr(c, "_parent", None)
+                direct = (isinstance(par, ast.Assign) and par.value is c and len(par.targets) == 1 and isinstance(par.targets[0], ast.Subscript)) or (isinstance(par, ast.Return) and par.value is c) or (isinstance(par, ast.Dict) and c in par.values) or (isinstance(par, ast.keyword) and par.value is c and isinstance(getattr(par, "_parent", None), ast.Call) and ast.unparse(par._parent.func).split(".")[-1] in ("update", "dict"))  # type: ignore[attr-defined]
+                if direct:
+                    n += 1
+                    run.instance("R12.5", fi.module.loc(c), f"{fi.qualname}: the value of `{norm(c)}` is stored / returned as it is", ok=True)
         for var, a in gvars.items():
             n += 1
             bad = []
